@@ -36,9 +36,16 @@ RULE = ("case kinds drawn per index: 'lgbn' (random DAG, 1-6 nodes [thorough 1-8
         "(Gaussian on 1-6 variables [thorough 1-8], covariance random PD with condition number <= 1e4 / integer / "
         "diagonal / block-diagonal; every [sampled above 5 vars] non-empty proper subset for marginalize and "
         "reduce in both inplace modes, canonical form, products with 1-2 other Gaussians on same/overlapping/"
-        "disjoint/permuted scopes in both inplace modes and via *, CanonicalDistribution.to_joint_gaussian). "
+        "disjoint/permuted scopes in both inplace modes and via *, CanonicalDistribution.to_joint_gaussian) | 'chain' "
+        "(8 [thorough 10] Gaussian objects, each taken through 2-4 [thorough 2-6] operations on the ONE object: "
+        "product / divide (operand on same, permuted, sub- or enlarged scope; divide operands keep K1-K2 positive "
+        "definite), marginalize, reduce, normalize, copy, 80% in place, with the precision cache filled or not before "
+        "each operation; after EVERY step mean, covariance, precision_matrix and to_canonical_factor() (K, h, g, "
+        "log-density at 8 points) are compared with the oracle's running state on deepcopy snapshots; plus 3 "
+        "CanonicalDistribution objects taken through 2-3 products / copies with (K, h, g) and to_joint_gaussian() "
+        "checked after every step). "
         "non-trivial: lgbn/fit need >= 2 nodes and >= 1 edge with a non-zero coefficient; gauss needs >= 2 variables "
-        "and a non-zero off-diagonal covariance; distinct by digest of the whole spec")
+        "and a non-zero off-diagonal covariance; chain needs an object with >= 2 density-changing steps; distinct by digest of the whole spec")
 ASSUMPTIONS = ["numpy linear algebra (solve, inv, lstsq, slogdet, cholesky) is correct in float64",
                "to_joint_gaussian / simulate label their positions by networkx.topological_sort(model) (the order "
                "predict and simulate themselves use); the checker reads that order from networkx, not from pgmpy",
@@ -52,7 +59,7 @@ _G = "pgmpy.factors.distributions.GaussianDistribution:GaussianDistribution."
 _C = "pgmpy.factors.distributions.CanonicalDistribution:CanonicalDistribution."
 REACH = [_L + "to_joint_gaussian", _L + "predict", _L + "fit", _L + "simulate",
          _G + "marginalize", _G + "reduce", _G + "to_canonical_factor", _G + "_operate", _G + "product",
-         _C + "to_joint_gaussian", _C + "_operate"]
+         _C + "to_joint_gaussian", _C + "_operate", _G + "divide", _G + "copy", _G + "normalize", _C + "copy"]
 REACH_REQUIRED = list(REACH)
 MANIFEST = {
     "text": "On generated linear-Gaussian networks and Gaussian distributions the reported joint, every "
@@ -250,7 +257,10 @@ def _fit_spec(rng, tier):
 
 def gen_case(seed, idx, tier):
     rng = gen.rng_for("C20", seed, idx)
-    kind = rng.choice(["lgbn", "lgbn", "lgbn", "fit", "fit", "gauss", "gauss", "gauss"])
+    kind = rng.choice(["lgbn", "lgbn", "lgbn", "fit", "fit", "gauss", "gauss", "gauss", "chain", "chain"])
+    if kind == "chain":
+        from rv.props import C20_chain
+        return dict(C20_chain.gen_chain_case(rng, tier), kind=kind)
     if kind == "lgbn":
         lg = _lg_spec(rng, tier)
         nodes = lg["nodes"]
@@ -911,4 +921,7 @@ def run_case(spec, ctx):
         return run_lgbn(spec, ctx)
     if spec["kind"] == "fit":
         return run_fit(spec, ctx)
+    if spec["kind"] == "chain":
+        from rv.props import C20_chain
+        return C20_chain.run_chain_case(spec, ctx)
     return run_gauss(spec, ctx)
